@@ -34,6 +34,27 @@ MISSED = {
     "C16-1": "texts were only loaded into fresh Rule objects; added loading into an already loaded rule",
     "C19-1": "`and`/`or` never occurred in the same antecedent; added the `mixed` usage",
     "C19-3": "no disabled rule; added usages where the connective only occurs in a disabled rule",
+    # ---- second round (ids 4..6) ----
+    "C01-6": "quick tier had no 3-leaf antecedent (an `and` inside the right operand of `or`); added a reduced 3-leaf slice",
+    "C02-4": "no input row at the pole 2*end - inflection of Concave's unused branch; added to the rows and to C03's break points",
+    "C02-5": "no engine with a hedged later conclusion processed in a batch with a NaN row; added `not` on the hybrid's last conclusion",
+    "C02-6": "no Function term using registered functions on per-row variables in a batch; added a Takagi-Sugeno engine with abs/max/gt/sin/round",
+    "C06-5": "operators were only passed to Rule.activate_with directly; added RuleBlock.activate under every activation method",
+    "C06-6": "no rule weight within the comparison tolerance of 1; added 0.9995 and 1.0005",
+    "C07-6": "rules were loaded once; added a second direct Rule.load before triggering",
+    "C12-4": "only the range [0,1]; added half-open ranges [0,inf) and (-inf,1]",
+    "C12-5": "clear() was only called on an enabled variable; added clear()/restart() while disabled",
+    "C12-6": "no infinite default value; added default = +inf",
+    "C13-6": "rule flags were always restored before a restart; added a persistent flip of a rule's enabled flag",
+    "C14-4": "every rule block had rules; added an empty, fully configured block and a last block without rules",
+    "C14-5": "no term height above 1; added height 2.0",
+    "C14-6": "descriptions had no exotic line-boundary characters; added form feed / vertical tab / U+2028",
+    "C15-4": "Function terms were created unloaded, so original and rebuilt engine failed alike; they are now loaded on creation",
+    "C15-5": "flags were given to the constructors of the original too; the original is now built by assignment, the rebuilt one by the constructors",
+    "C15-6": "no NaN vertices / two-argument short forms of Trapezoid and Triangle; added as components",
+    "C16-4": "both outputs had the same term names and two-conclusion consequents were longer than the token bound; added all (variable, term) pairings with distinct term sets",
+    "C17-5": "every formula was loaded into a fresh term; added re-configuring one long-lived term",
+    "C17-6": "the variables dictionary was never shared between terms; added a two-term sharing scenario",
 }
 results = []
 for d in sorted(os.listdir(SRC)):
